@@ -308,7 +308,7 @@ def apply_redirects(redirects, tmp):
     return out
 
 
-def write_replay(prop, pkg, entry, v, tape, expect, hang_s=8, redirects=None, attempts=1):
+def write_replay(prop, pkg, entry, v, tape, expect, hang_s=8, redirects=None, attempts=1, race=False):
     """Writes the replay artefacts under /verif/out/<prop>/ and returns the path of the spec file."""
     odir = os.path.join(VERIF, "out", prop)
     os.makedirs(odir, exist_ok=True)
@@ -320,7 +320,7 @@ def write_replay(prop, pkg, entry, v, tape, expect, hang_s=8, redirects=None, at
         f.write(TEST_TMPL % {"pkg": pkg, "entry": entry, "hang_s": hang_s, "attempts": attempts})
     with open(tape_path, "w") as f:
         json.dump(tape, f, indent=1)
-    spec = {"property": prop, "pkg": pkg, "entry": entry, "test": test_path, "tape": tape_path, "expect": expect, "redirects": redirects or [],
+    spec = {"property": prop, "pkg": pkg, "entry": entry, "test": test_path, "tape": tape_path, "expect": expect, "redirects": redirects or [], "race": race,
             "violation": {k: v.get(k) for k in ("kind", "id", "msg", "pos", "func", "trace", "stack")}}
     with open(spec_path, "w") as f:
         json.dump(spec, f, indent=1)
@@ -341,6 +341,8 @@ def run_replay(spec_path, timeout=180):
             json.dump(ov, f)
         env = dict(GOENV, VERIF_TAPE=spec["tape"])
         cmd = ["go", "test", "-tags", "verif", "-vet=off", "-count=1", "-overlay", ovp, "-run", "^TestVerifReplay$", "-v", "./" + spec["pkg"]]
+        if spec.get("race"):
+            cmd.insert(2, "-race")
         try:
             r = subprocess.run(cmd, cwd=REPO, env=env, capture_output=True, text=True, timeout=timeout)
             out = r.stdout + r.stderr
@@ -442,14 +444,14 @@ class Check:
                 return k
         return None
 
-    def handle(self, pkg, entry, v, make_tape=None, hang_s=8, replay=True, expect=None, redirects=None, attempts=1):
+    def handle(self, pkg, entry, v, make_tape=None, hang_s=8, replay=True, expect=None, redirects=None, attempts=1, race=False):
         """Processes one engine violation: known finding, or replay and report."""
         if v.get("unknown"):
             self.inconclusive.append("%s: obligation %s/%s at %s undecided (solver unknown)" % (entry, v["kind"], v["id"], v["pos"]))
             return
         k = self.classify(entry, v)
         tape = make_tape(v) if make_tape else tape_from(v)
-        spec = write_replay(self.prop, pkg, entry, v, tape, expect or expect_for(v), hang_s=hang_s, redirects=redirects, attempts=attempts)
+        spec = write_replay(self.prop, pkg, entry, v, tape, expect or expect_for(v), hang_s=hang_s, redirects=redirects, attempts=attempts, race=race)
         if k is not None:
             if not any(x["what"] == k["what"] for x in self.known_hit):
                 # replay once per known finding to keep the file honest
@@ -461,6 +463,8 @@ class Check:
                 self.known_hit.append({"what": k["what"], "replay": spec, "reproduced": ok, "sample": _sample(v)})
             return
         key = (v["kind"], v["id"], short_func(v.get("func")))
+        if v["kind"] == "race":
+            key = (v["kind"], v["id"], "")
         if any(x["key"] == key for x in self.violations):
             return
         if sum(1 for x in self.spurious if x["key"] == key) >= 3:
